@@ -42,8 +42,8 @@ func c13Midflight(s *c13Sess, polled bool) string {
 	nUp := 2*int(s.cfg.UpFrag) + 1
 	buf := c13Keyed(s.keyUp, s.upSent, nUp)
 	s.upSent += int64(nUp)
-	if _, err := s.client.Write(buf); err != nil {
-		return "tunnel:" + c13ErrName(err)
+	if p := s.clientWrite(buf); p != "" {
+		return p
 	}
 	if p := s.startDown(2*int(s.cfg.DownFrag) + 2); p != "" {
 		return p
